@@ -51,6 +51,7 @@ type ev struct {
 	data   []byte
 	accept int
 	werr   bool
+	gated  bool // the destination Write accepts everything but returns only when released
 }
 
 func (e *ev) failing() bool { return e.kind == "chunk" && (e.werr || e.accept < len(e.data)) }
@@ -152,6 +153,11 @@ type world struct {
 	pairs     []*pair
 	anomalies []string
 	timeout   time.Duration
+	// writes in flight (ctl lines): a gated Write returns once releaseSeq has
+	// moved on; gatedOutstanding counts gated writes whose copy goroutine has not
+	// come back to Read yet (i.e. whose auditor may not have run yet).
+	releaseSeq       int
+	gatedOutstanding int
 }
 
 type pair struct {
@@ -159,6 +165,7 @@ type pair struct {
 	done          [2]bool // the copy goroutine of the direction will not read again
 	nilDone       [2]bool // ... because it saw EOF
 	waiting       [2]bool // the copy goroutine of the direction is blocked in Read
+	gated         [2]bool // a destination Write of the direction is (or was) in flight
 }
 
 type sconn struct {
@@ -214,6 +221,12 @@ func (c *sconn) Read(b []byte) (int, error) {
 	for {
 		if c.closed > 0 || c.forced {
 			c.p.waiting[d] = false
+			if c.p.gated[d] {
+				// the write in flight has returned and its auditor has run
+				c.p.gated[d] = false
+				w.gatedOutstanding--
+				w.changed()
+			}
 			return 0, errClosed
 		}
 		if w.cur >= 0 && !w.taken {
@@ -269,6 +282,18 @@ func (c *sconn) Write(b []byte) (int, error) {
 	if e == nil {
 		w.anomaly("unscripted write of %d bytes on connection %d side %d", len(b), c.index, c.side)
 		c.received = append(c.received, b...)
+		return len(b), nil
+	}
+	if e.gated {
+		c.received = append(c.received, b...)
+		c.p.gated[c.side] = true
+		c.p.done[c.side] = true
+		w.gatedOutstanding++
+		seq := w.releaseSeq
+		w.changed()
+		for w.releaseSeq == seq && !c.forced {
+			w.cond.Wait()
+		}
 		return len(b), nil
 	}
 	n := e.accept
@@ -739,6 +764,8 @@ func runCase(line string) (string, string) {
 			return "bad-op", ""
 		}
 		return runFwd(events)
+	case len(f) == 2 && f[0] == "ctl":
+		return runCtl(f[1])
 	case len(f) == 5 && f[0] == "sock" && (f[1] == "unix" || f[1] == "tcp"):
 		return runSock(f[1], f[2], unhex(f[3]), unhex(f[4]))
 	}
@@ -844,6 +871,10 @@ func main() {
 			mode := c.R.Pick("ab", "ba", "cancel")
 			emit(fmt.Sprintf("sock %s %s %s %s", kind, mode, hx.Hex(c.R.Bytes(size(), 0)), hx.Hex(c.R.Bytes(size(), 0))))
 			c.Count("sock-" + kind + "-" + mode)
+		}
+		// 0b. controller.run across loop generations (teardown + restart with writes in flight).
+		for i := 0; i < c.Size(1200, 30000); i++ {
+			emit("ctl " + genCtl(c))
 		}
 		// 1. ForwardAndClose, exhaustive: all scripts up to length L over a small alphabet.
 		alphabet := []string{"r0:a1a2:2:0", "r1:b1:1:0", "r0:c1c2c3:1:0", "r1:d1d2:2:1", "r1:d3d4:0:1", "e0", "e1", "x0", "x1", "c"}
